@@ -384,7 +384,7 @@ def gen_history(rng, stream: str = "main", max_ops: int = 40) -> Hist:
 
     def pick_parents():
         p = rng.randrange(len(classes))
-        if stream != "kf" and rng.random() < 0.12:      # the faithful model of the known-finding region is single-inheritance
+        if rng.random() < 0.12:
             fam = [c["id"] for c in classes if root_of[c["id"]] == root_of[p] and c["id"] != p]
             if fam:
                 q = rng.choice(fam)
